@@ -584,7 +584,11 @@ func (r *concRun) judge() (*concFinding, concTally) {
 			ty.linkRacing++
 		}
 		if c >= 2 {
-			ty.linkDouble++
+			// two incarnations of the link (the one a LinkTo call removed and the one it attached) both ran for ONE trigger:
+			// a trigger only reaches hooks attached before it began, and the new incarnation is attached after the old one
+			// was removed, so the trigger that still reached the old one began before the new one existed
+			d["calls"] = c
+			return f("linked event fired more than once for one trigger of its target", d)
 		}
 		if c < lo || c > hi {
 			d["min_allowed"], d["max_allowed"] = lo, hi
